@@ -8,6 +8,8 @@ Request:  tokens, registry starts empty, clock starts at 0:
   `ql<id>`                       long-term key_bundle     -> `b<prekey>` | `-` | `E:expired`
   `qo<id>`                       one-time key_bundle      -> `b<prekey>` | `-`
   `rx`                           remove_expired           -> `ok`
+  `sl<id>:<bundle>;<bundle>..`   restore member id's long-term list from persistence (`sl<id>:-` empty) -> `ok`
+  `lk:<bundle>;<bundle>..`       the public `latest_key_bundle(&[..])` on an arbitrary list -> `b<prekey>` | `-`
   bundle = `<ident>.<prekey>.<not_before>.<not_after>.<sigBy>.<sigMsg>.<otk|->`
 A failing / panicking add leaves the registry as it was (the caller's clone).
 -/
@@ -25,6 +27,7 @@ def parseBundle (t : String) : Option Bundle :=
 inductive Cmd where
   | clock (now : Nat) | addL (id : Nat) (b : Bundle) | addO (id : Nat) (b : Bundle)
   | qL (id : Nat) | qO (id : Nat) | rx
+  | setL (id : Nat) (l : List Bundle) | latestOf (l : List Bundle)
 
 def parseAdd (r : String) : Option (Nat × Bundle) :=
   match r.splitOn ":" with
@@ -33,8 +36,20 @@ def parseAdd (r : String) : Option (Nat × Bundle) :=
     | _, _ => none
   | _ => none
 
+def parseBundles (r : String) : Option (List Bundle) :=
+  if r = "-" then some [] else (r.splitOn ";").mapM parseBundle
+
+def parseSetL (r : String) : Option Cmd :=
+  match r.splitOn ":" with
+  | [i, bs] => match i.toNat?, parseBundles bs with
+    | some i, some l => some (Cmd.setL i l)
+    | _, _ => none
+  | _ => none
+
 def parseCmd (t : String) : Option Cmd :=
   match t.toList with
+  | 's' :: 'l' :: r => parseSetL (String.ofList r)
+  | 'l' :: 'k' :: ':' :: r => (parseBundles (String.ofList r)).map Cmd.latestOf
   | 't' :: r => (String.ofList r).toNat?.map Cmd.clock
   | 'a' :: 'l' :: r => (parseAdd (String.ofList r)).map (fun p => Cmd.addL p.1 p.2)
   | 'a' :: 'o' :: r => (parseAdd (String.ofList r)).map (fun p => Cmd.addO p.1 p.2)
@@ -70,6 +85,8 @@ def stepCmd (s : St) : Cmd → St
     let (r, b) := s.reg.keyBundleOnetime id s.now
     { s with reg := r, out := bStr b :: s.out }
   | .rx => { s with reg := s.reg.removeExpired s.now, out := "ok" :: s.out }
+  | .setL id l => { s with reg := s.reg.restoreLongterm id l, out := "ok" :: s.out }
+  | .latestOf l => { s with out := bStr (latest l s.now) :: s.out }
 
 def handle (line : String) : String :=
   match (tokens line).mapM parseCmd with
